@@ -456,7 +456,8 @@ pub fn compute_lattice_index(rows: &Vec<Vec<i64>>, hmin: f64, hmax: f64) -> u128
     rows.sort_by_cached_key(|x| x.iter().map(|&y| y * y).sum::<i64>());
     let dim = rows[0].len();
     let mut gcd = I4096::ZERO;
-    for idx_start in 0..max(3, rows.len()) - 3 {
+    // At least one start index, also for 1 to 3 rows.
+    for idx_start in 0..max(4, rows.len()) - 3 {
         // Try several start rows if needed
         let mut g = GramBuilder::default();
         let mut builder = None;
